@@ -19,7 +19,10 @@
 EXTENDS Integers, Sequences, FiniteSets, TLC, SequencesExt, FiniteSetsExt, Json, IOUtils
 
 CONSTANTS NForms, Cyclic, Args, Rs, Junk,
-          SaveRestore   \* BOOLEAN: __call__ puts the previous bindings back after evaluating (the repaired tree)
+          SaveRestore,  \* BOOLEAN: __call__ puts the previous bindings back after evaluating (the repaired tree)
+          CallBuffers   \* BOOLEAN: a call node of a compiled formula keeps the values of its arguments in a buffer that belongs to
+                        \* the NODE, not to the activation (the expression library; the tree as it is - known finding F48): if the
+                        \* formula is re-entered while a later argument is evaluated, the earlier arguments are overwritten
 
 Forms == 1..NForms
 \* expressions
@@ -29,6 +32,10 @@ Num(k) == [op |-> "num", k |-> k]
 Bin(o, x, y) == [op |-> o, x |-> x, y |-> y]
 Call(g, x) == [op |-> "call", g |-> g, x |-> x]          \* g is RELATIVE: the g-th form after the caller (acyclic) or before (cyclic)
 If(c, x, y) == [op |-> "if", c |-> c, x |-> x, y |-> y]
+\* a call NODE with two arguments: of the helper form h2(x, y) = x*100 + y, or of pymath.fsum(x, y) = x + y; id tells the
+\* call nodes of one body apart (each has its own argument buffer)
+Fn2(id, kind, x, y) == [op |-> "fn2", id |-> id, kind |-> kind, x |-> x, y |-> y]
+Fn2Value(kind, x, y) == IF kind = "h2" THEN x * 100 + y ELSE x + y
 
 \* body pool: leaf bodies (no calls) and calling bodies
 LeafBodies == { Bin("add", Par, Rr), Bin("mul", Par, Rr), Bin("sub", Bin("mul", Par, Par), Rr), If(Bin("lt", Rr, Num(2)), Par, Bin("add", Par, Num(3))) }
@@ -40,13 +47,24 @@ CallBodies == { Bin("add", Call(1, Par), Num(1)),
                 Bin("add", Call(1, Par), Call(2, Par)) }                          \* two different callees (the second may not exist)
 RecursiveBodies == { If(Bin("lt", Par, Num(1)), Num(1), Bin("add", Call(1, Bin("sub", Par, Num(1))), Par)),     \* a(n) = if(n<=0, 1, b(n-1) + n)
                      \* two nested calls at every level, the parameter read after BOTH returned: a(n) = if(n<=0, 0, b(n-1) + b(n-1) + n*r)
-                     If(Bin("lt", Par, Num(1)), Num(0), Bin("add", Bin("add", Call(1, Bin("sub", Par, Num(1))), Call(1, Bin("sub", Par, Num(1)))), Bin("mul", Par, Rr))) }
+                     If(Bin("lt", Par, Num(1)), Num(0), Bin("add", Bin("add", Call(1, Bin("sub", Par, Num(1))), Call(1, Bin("sub", Par, Num(1)))), Bin("mul", Par, Rr))),
+                     \* the recursive call is an ARGUMENT of another call: a(n) = if(n<1, 0, h2(n, b(n-1)))
+                     If(Bin("lt", Par, Num(1)), Num(0), Fn2(1, "h2", Par, Call(1, Bin("sub", Par, Num(1))))),
+                     \* the first two bodies with their sums written as pymath.fsum(x, y) calls
+                     If(Bin("lt", Par, Num(1)), Num(1), Fn2(1, "sum", Call(1, Bin("sub", Par, Num(1))), Par)),
+                     If(Bin("lt", Par, Num(1)), Num(0), Fn2(1, "sum", Fn2(2, "sum", Call(1, Bin("sub", Par, Num(1))), Call(1, Bin("sub", Par, Num(1)))), Bin("mul", Par, Rr))) }
+RECURSIVE UsesH2(_)
+UsesH2(e) == CASE e.op = "fn2" -> TRUE
+               [] e.op \in {"add", "sub", "mul", "lt"} -> UsesH2(e.x) \/ UsesH2(e.y)
+               [] e.op = "if" -> UsesH2(e.c) \/ UsesH2(e.x) \/ UsesH2(e.y)
+               [] e.op = "call" -> UsesH2(e.x)
+               [] OTHER -> FALSE
 
 \* call target of form f for relative index g; 0 = does not exist
 Target(f, g) == IF Cyclic THEN ((f + g - 1) % NForms) + 1 ELSE IF f + g <= NForms THEN f + g ELSE 0
 RECURSIVE WellFormed(_, _)
 WellFormed(e, f) == CASE e.op \in {"par", "r", "num"} -> TRUE
-                      [] e.op \in {"add", "sub", "mul", "lt"} -> WellFormed(e.x, f) /\ WellFormed(e.y, f)
+                      [] e.op \in {"add", "sub", "mul", "lt", "fn2"} -> WellFormed(e.x, f) /\ WellFormed(e.y, f)
                       [] e.op = "call" -> Target(f, e.g) # 0 /\ WellFormed(e.x, f)
                       [] e.op = "if" -> WellFormed(e.c, f) /\ WellFormed(e.x, f) /\ WellFormed(e.y, f)
 Programs == IF Cyclic
@@ -68,12 +86,14 @@ Sub(p, e, f, a, r, fuel) ==
     [] e.op = "sub" -> Sub(p, e.x, f, a, r, fuel) - Sub(p, e.y, f, a, r, fuel)
     [] e.op = "mul" -> Sub(p, e.x, f, a, r, fuel) * Sub(p, e.y, f, a, r, fuel)
     [] e.op = "lt" -> IF Sub(p, e.x, f, a, r, fuel) < Sub(p, e.y, f, a, r, fuel) THEN 1 ELSE 0
+    [] e.op = "fn2" -> Fn2Value(e.kind, Sub(p, e.x, f, a, r, fuel), Sub(p, e.y, f, a, r, fuel))
     [] e.op = "if" -> IF Sub(p, e.c, f, a, r, fuel) # 0 THEN Sub(p, e.x, f, a, r, fuel) ELSE Sub(p, e.y, f, a, r, fuel)
     [] e.op = "call" -> IF fuel = 0 THEN 0
                         ELSE Sub(p, p[Target(f, e.g)], Target(f, e.g), Sub(p, e.x, f, a, r, fuel), r, fuel - 1)
 
 (* the implementation: one mutable symbol table per form *)
-\* result: [v |-> value, t |-> tables after the evaluation]   tables: form -> current binding of its parameter a
+\* result: [v |-> value, t |-> tables after the evaluation]   tables: form -> current binding of its parameter a ;
+\* tables[-(10 f + id)] is the argument buffer of call node `id' of form f's compiled formula
 RECURSIVE Impl(_, _, _, _, _, _)
 Res(v, t) == [v |-> v, t |-> t]
 Impl(p, e, f, t, r, fuel) ==
@@ -85,6 +105,12 @@ Impl(p, e, f, t, r, fuel) ==
              y == Impl(p, e.y, f, x.t, r, fuel) IN
          Res(CASE e.op = "add" -> x.v + y.v [] e.op = "sub" -> x.v - y.v [] e.op = "mul" -> x.v * y.v
                [] e.op = "lt" -> IF x.v < y.v THEN 1 ELSE 0, y.t)
+    [] e.op = "fn2" ->
+         LET key == 0 - (10 * f + e.id)
+             x == Impl(p, e.x, f, t, r, fuel)
+             stored == [x.t EXCEPT ![key] = x.v]                \* the first argument goes into the node's buffer ...
+             y == Impl(p, e.y, f, stored, r, fuel) IN           \* ... and is still expected there when the second one is known
+         Res(Fn2Value(e.kind, IF CallBuffers THEN y.t[key] ELSE x.v, y.v), y.t)
     [] e.op = "if" -> LET c == Impl(p, e.c, f, t, r, fuel) IN
                       IF c.v # 0 THEN Impl(p, e.x, f, c.t, r, fuel) ELSE Impl(p, e.y, f, c.t, r, fuel)
     [] e.op = "call" ->
@@ -95,6 +121,7 @@ Impl(p, e, f, t, r, fuel) ==
                   res == Impl(p, p[g], g, bound, r, fuel - 1)
               IN IF SaveRestore THEN Res(res.v, [res.t EXCEPT ![g] = arg.t[g]]) ELSE res
 
+BufferKeys == {0 - (10 * g + id) : g \in Forms, id \in 1..2}
 -----------------------------------------------------------------------------
 VARIABLES prog, tables, call, result
 vars == <<prog, tables, call, result>>
@@ -105,8 +132,9 @@ Init == /\ prog \in Programs
 
 \* a potential instantiated as `f a` is evaluated at r (one public call)
 TopCall(f, a, r) ==
-  /\ LET res == Impl(prog, prog[f], f, [tables EXCEPT ![f] = a], r, NForms + 3) IN
-       /\ result' = res.v /\ tables' = IF SaveRestore THEN [res.t EXCEPT ![f] = tables[f]] ELSE res.t
+  /\ LET t0 == [k \in Forms \cup BufferKeys |-> IF k = f THEN a ELSE IF k > 0 THEN tables[k] ELSE 0]
+         res == Impl(prog, prog[f], f, t0, r, NForms + 3) IN
+       /\ result' = res.v /\ tables' = [k \in Forms |-> IF SaveRestore /\ k = f THEN tables[f] ELSE res.t[k]]
   /\ call' = [f |-> f, a |-> a, r |-> r]
   /\ UNCHANGED prog
 
@@ -114,6 +142,9 @@ Next == \E f \in Forms, a \in Args, r \in Rs : TopCall(f, a, r)
 Spec == Init /\ [][Next]_vars
 
 ImplIsSubstitution == (call.f # 0) => result = Sub(prog, prog[call.f], call.f, call.a, call.r, NForms + 3)
+\* what the tree as it is satisfies (CallBuffers): everything but recursion through the argument of another call (F48)
+ImplIsSubstitutionButF48 == (call.f # 0 /\ ~(Cyclic /\ \E g \in Forms : UsesH2(prog[g]))) =>
+                              result = Sub(prog, prog[call.f], call.f, call.a, call.r, NForms + 3)
 
 -----------------------------------------------------------------------------
 (* pymath.* : each function is Python's math function of the same name with the same argument order.  Exact integer     *)
@@ -145,8 +176,11 @@ PyMathTable ==
          PM("cosh", <<0>>, 1), PM("tanh", <<0>>, 0), PM("asinh", <<0>>, 0), PM("atan", <<0>>, 0), PM("acosh", <<1>>, 0), PM("atanh", <<0>>, 0),
          PM("acos", <<1>>, 0), PM("log", <<1>>, 0), PM("floor", <<7>>, 7), PM("ceil", <<7>>, 7), PM("trunc", <<0 - 7>>, 0 - 7)}
 
+\* v: what the formulas denote; impl: what the model of the implementation (SaveRestore, CallBuffers as configured) computes
+ImplFresh(p, f, a, r) == Impl(p, p[f], f, [k \in Forms \cup BufferKeys |-> IF k = f THEN a ELSE 0], r, NForms + 3).v
 CaseOf(p) == [prog |-> [f \in Forms |-> p[f]],
-              vals |-> SetToSeq({[f |-> f, a |-> a, r |-> r, v |-> Sub(p, p[f], f, a, r, NForms + 3)] : f \in Forms, a \in Args, r \in Rs})]
+              h2 |-> \E g \in Forms : UsesH2(p[g]),
+              vals |-> SetToSeq({[f |-> f, a |-> a, r |-> r, v |-> Sub(p, p[f], f, a, r, NForms + 3), impl |-> ImplFresh(p, f, a, r)] : f \in Forms, a \in Args, r \in Rs})]
 Emit == IF "EMIT" \in DOMAIN IOEnv /\ IOEnv.EMIT = "1"
         THEN /\ ndJsonSerialize(IOEnv.VERIF_OUT \o "/cases.ndjson", SetToSeq({CaseOf(p) : p \in Programs}))
              /\ ndJsonSerialize(IOEnv.VERIF_OUT \o "/pymath.ndjson", SetToSeq(PyMathTable))
